@@ -274,6 +274,84 @@ def rule_z10(chk: Check) -> None:
     chk.ob("Z10", f"{prop.key}: parameter name matched case-insensitively", ok, f"{sites} sites")
 
 
+def _charset_sites(fn_node: ast.AST):
+    """(site expr, kind) where a parameter name is matched against 'charset'."""
+    for x in walk(fn_node):
+        if isinstance(x, ast.Compare) and len(x.ops) == 1 and isinstance(x.ops[0], (ast.Eq, ast.NotEq)):
+            a, b = x.left, x.comparators[0]
+            if any(isinstance(c, ast.Constant) and isinstance(c.value, str) and c.value.rstrip("=") == "charset" for c in (a, b)):
+                yield x
+        elif isinstance(x, ast.Call) and method_call(x) and method_call(x)[1] == "startswith" and x.args and isinstance(x.args[0], ast.Constant) and str(x.args[0].value).startswith("charset"):
+            yield x
+
+
+def charset_scan_covers_all(chk: Check, R: str, scopes: list[tuple[str, list]], consequence: str) -> None:
+    """A meta may carry several parameters (`text/plain; format=flowed;
+    charset=iso-8859-1`): the search for the charset parameter must look at each
+    of them, i.e. the match against 'charset' sits in a loop / comprehension over
+    the parameter list (or reads a table built from all of them)."""
+    chk.rule(R, "the charset parameter is found wherever it stands in the meta: the name match against 'charset' is evaluated for every `;`-separated parameter (loop / comprehension / parameter table), not for a fixed position")
+    for label, fns in scopes:
+        n = 0
+        ok = True
+        for fn in fns:
+            parents = {}
+            for p_ in ast.walk(fn.node):
+                for c_ in ast.iter_child_nodes(p_):
+                    parents[c_] = p_
+            for site in _charset_sites(fn.node):
+                n += 1
+                cur = site
+                loop = None
+                while cur in parents:
+                    cur = parents[cur]
+                    if isinstance(cur, (ast.For, ast.AsyncFor, ast.While, ast.ListComp, ast.GeneratorExp, ast.SetComp, ast.DictComp)):
+                        loop = cur
+                        break
+                    if isinstance(cur, (ast.FunctionDef, ast.AsyncFunctionDef)) and cur is not fn.node:
+                        break
+                bounded = None
+                if isinstance(loop, (ast.For, ast.AsyncFor)):
+                    its = [loop.iter]
+                elif loop is not None and not isinstance(loop, ast.While):
+                    its = [g_.iter for g_ in loop.generators]
+                else:
+                    its = []
+                for it in its:
+                    if isinstance(it, ast.Subscript) and isinstance(it.slice, ast.Slice) and it.slice.upper is not None and isinstance(it.slice.upper, ast.Constant):
+                        bounded = it
+                if loop is None or bounded is not None:
+                    ok = False
+                    chk.finding(
+                        R, fn.key, f"charset-fixed-position:{norm(site)[:40]}",
+                        f"`{norm(site)[:70]}` is evaluated {'for `' + norm(bounded) + '` only' if bounded is not None else 'once, not for every parameter of the meta'}: a charset that is not at that position (`text/plain; format=flowed; charset=iso-8859-1`) is not found, so {consequence}",
+                        fn.loc(site),
+                    )
+        chk.require(R, label, "matches of a parameter name against 'charset'", n, 1, "the declared charset is never looked for")
+        chk.ob(R, f"{label}: every parameter is examined for the charset", ok, f"{n} sites", evals=max(1, n))
+
+
+def rule_z11(chk: Check) -> None:
+    ci = chk.proj.cls("protocol.response:GeminiResponse")
+    prop = ci.methods.get("charset")
+    scope = [prop] if prop else []
+    for fn in list(scope):
+        for x in walk(fn.node):
+            if isinstance(x, ast.Attribute) and dotted(x.value) == "self" and x.attr in ci.methods and ci.methods[x.attr] not in scope:
+                scope.append(ci.methods[x.attr])
+            elif isinstance(x, ast.Call) and isinstance(x.func, ast.Name) and x.func.id in chk.proj.module("protocol.response").functions:
+                f2 = chk.proj.module("protocol.response").functions[x.func.id]
+                if f2 not in scope:
+                    scope.append(f2)
+    cp = chk.proj.module("client.protocol")
+    cfns = list(cp.functions.values()) + [m for c in cp.classes.values() for m in c.methods.values()]
+    charset_scan_covers_all(
+        chk, "Z11",
+        [("protocol.response:GeminiResponse.charset", scope), ("client.protocol", cfns)],
+        "the body is decoded / re-encoded as UTF-8 while the meta names another charset: the relayed bytes differ from the upstream's",
+    )
+
+
 def rule_z4(chk: Check, ci) -> None:
     chk.rule("Z4", "the fetch is bounded by the location's timeout")
     init = ci.methods.get("__init__")
@@ -310,6 +388,10 @@ def run(chk: Check) -> None:
         rule_z3(chk, ci, fn)
     rule_z4(chk, ci)
     rule_z10(chk)
+    rule_z11(chk)
+    from .c13 import rule_e8
+
+    rule_e8(chk, "Z13")
     # Z6: an upstream that resets or closes early surfaces as an exception at the
     # fetch (and is then mapped to 43 by Z1), never as a truncated success
     from .c13 import rule_e1b
@@ -329,5 +411,8 @@ def run(chk: Check) -> None:
     from .common import reuse
 
     reuse(chk, rule_y5, "Z7", "each proxy location is registered with the handler built from its own upstream / prefix / timeout, and the router returns the first match (= C17.Y5)", ("Y5",))
+    from .common import response_fields_immutable
+
+    response_fields_immutable(chk, "Z12", "the relay sees a body that is no longer the one the client parsed (bytes decoded behind its back are re-encoded as UTF-8 under the unchanged meta)")
     chk.trusted = ["CPython ast parser", "engine CFG / abstract evaluator", "str.encode(X) inverts bytes.decode(X) for the charset the upstream declared", "C01.W3 sanitises whatever header the upstream sent"]
     chk.assumptions = ["byte-exact relay for codecs whose decode/encode is not a bijection (BOMs, stateful encodings) is not decided"]
